@@ -87,6 +87,7 @@ def gen_config(rng):
             later = all_prov - avail_route
             f = pick(avail_req, avail_route, later)
             f['provides'] = list(prov[ph])
+            f['positional_next'] = rng.random() < 0.35
             funcs[ph] = f
             sofar[ph] |= set(prov[ph])
         mws.append({'name': 'M%d' % i, 'level': 'app' if is_app else 'route', 'funcs': funcs})
@@ -287,7 +288,7 @@ class C02(Check):
                   'independent resolver as oracle. The configuration space is a sampled input space; what simulation adds '
                   'is the history, interleaving and hash-seed dimensions the property names.')
     level_note = 'Trusted: the resolver (~40 lines from the property text), generator validity rules V1-V3.'
-    required_probes = ('render-error-injected', 'optional-got-offered-value', 'kwonly-got-offered-value', 'null-route-defaults', 'concurrent-batch',
+    required_probes = ('positional-next-multi', 'render-error-injected', 'optional-got-offered-value', 'kwonly-got-offered-value', 'null-route-defaults', 'concurrent-batch',
                        'kind-lambda', 'kind-callable', 'kind-classmethod', 'kind-decorated', 'multi-url-value')
 
     def generate(self, seed, tier):
@@ -328,6 +329,12 @@ class C02(Check):
         for kind in ('ep', 'rn'):
             res.probe('kind-' + cfg[kind]['kind'])
         RT.reset({})
+        for m in cfg['mws']:
+            for ph, f in m['funcs'].items():
+                if f.get('positional_next'):
+                    RT.positional.add('%s.%s' % (m['name'], ph))
+                    if len(f['provides']) > 1:
+                        res.probe('positional-next-multi')
         envs = {}
         results = {}
 
